@@ -9,12 +9,29 @@ value of every dynamic type (int64, float64 by bit pattern incl. NaN/±Inf/−0,
 array, table, datetime, nil), every user map and every *sequence* of user maps.
 
 What is a theorem and what is checked on every run:
-* theorems below: the assignment machinery is sound for any table that is `specsWellFormed`
-  (resp. `specsTypeWellFormed`);
-* `specsWellFormed` / `specsTypeWellFormed` are decidable and are evaluated by the driver on the
-  specification table of every crem component, extracted from the running Go code
-  (`HYP SpecsWellFormed:<component>:<key>` lines of the `params` suite);
-* that the Go code computes the model's functions is the `params` correspondence suite.
+* theorems below: the assignment machinery is sound
+  - **per key** (`perkey_invariant`, `perkey_range`, `perkey_stated_ranges_partial`): for any table
+    whose keys are distinct, for every key whose OWN specification is well formed
+    (`specWellFormed`), whatever the other specifications of the table look like;
+  - **per table** (`well_typed_invariant`, `no_later_range_failure`,
+    `no_errors_no_later_failure_stated_ranges_partial`): for any table that is `specsWellFormed`
+    as a whole (resp. `specsTypeWellFormed` for the type-level statements);
+* which form applies where: the table-global `specsWellFormed` holds for 8 of crem's 9 components
+  and is FALSE for the shipped catchment table (`DataSourcePath`: default `""` is rejected by its
+  own validator `IsReadableFile`; known finding), so the per-table range theorems say nothing
+  about the catchment model; the per-key theorems cover its other 16 keys (every
+  `HYP SpecsWellFormed:catchment:<key>` line except `DataSourcePath` is true), and for
+  `DataSourcePath` itself `perkey_invariant` still gives "a readable file, or the untouched
+  default";
+* `specWellFormed` (per key), `nodupKeys` and `specTypeWellFormed` are decidable and are evaluated
+  by the driver on the specification table of every crem component, extracted from the running
+  Go code (`HYP SpecsWellFormed:<component>:<key>`, `HYP SpecsTypeWellFormed:<component>:<key>`
+  and `HYP SpecKeysDistinct:<component>` lines of the `params` suite);
+* that the Go code computes the model's functions is the `params` correspondence suite;
+* NOT a theorem: the last clause of the property in full ("a component that reports no parameter
+  errors never fails later on parameter type or range").  It is false on the code (known findings
+  D15, D18, D23); what is proved is the part about the ranges the specifications STATE
+  (`…_stated_ranges_partial`), with refuting examples for the rest at the end of this file.
 
 Every `theorem` in this file is audited by `./check C18` (`#print axioms`).
 -/
@@ -333,12 +350,22 @@ theorem no_later_range_failure (env : Env) (c : Component) (hwf : specsWellForme
   cases hs'
   exact hsat
 
-/-- The literal last clause of the property, in the model: if the component reports no parameter
-errors after the sequence, every specified non-optional key reads back with its declared type and
-a value its validator accepts. -/
-theorem no_errors_no_later_failure (env : Env) (c : Component) (hwf : specsWellFormed env c.specs = true)
-    (users : List (List (String × Value)))
-    (_hnoerr : (afterSequence env c users).errors = [])
+/-- FULL CLAUSE (not proved, false on the code): "a component that reports no parameter errors never
+fails later on parameter type or range", i.e. for every consumer of the parameter set,
+`(afterSequence env c users).errors = [] → the component runs without a parameter-caused failure`.
+
+PROVED PART: every specified non-optional key reads back with its declared type and a value inside
+the range its specification STATES — with or without reported errors (the "no errors" premise is not
+needed for this part and is therefore not a hypothesis).
+
+MISSING: that the stated range is as narrow as the code consuming the value needs.  Refuted on the
+code by D15 (unbounded `IsDecimal` keys accept overflow-sized values, `RoundFloat` panics later),
+D18 (an accepted `Maximum…` limit the data cannot meet ends in the "Attempt limit reached" panic) and
+D23 (no / unusable `DataSourcePath`: no error, failure at `Initialise`); see the refuting examples
+`FullClause` at the end of this file.  Needs `specsWellFormed`, hence does not apply to the catchment
+table: use `perkey_stated_ranges_partial` there. -/
+theorem no_errors_no_later_failure_stated_ranges_partial (env : Env) (c : Component)
+    (hwf : specsWellFormed env c.specs = true) (users : List (List (String × Value)))
     (k : String) (s : Spec) (hs : c.specs.find k = some s) (ho : s.optional = false) :
     ∃ v, (afterSequence env c users).get k = some v ∧ v.hasTy s.validator.ty = true ∧
       validates env s.validator v = true := by
@@ -346,6 +373,158 @@ theorem no_errors_no_later_failure (env : Env) (c : Component) (hwf : specsWellF
   obtain ⟨v, hv⟩ := hwt.2 k s (by rw [afterSequence_specs]; exact hs) ho
   have := no_later_range_failure env c hwf users k s v hs hv
   exact ⟨v, hv, validates_hasTy env _ _ this, this⟩
+
+/-- former name of `no_errors_no_later_failure_stated_ranges_partial`, kept because other files cite
+it; the premise `_hnoerr` is not needed (see there) -/
+theorem no_errors_no_later_failure (env : Env) (c : Component) (hwf : specsWellFormed env c.specs = true)
+    (users : List (List (String × Value)))
+    (_hnoerr : (afterSequence env c users).errors = [])
+    (k : String) (s : Spec) (hs : c.specs.find k = some s) (ho : s.optional = false) :
+    ∃ v, (afterSequence env c users).get k = some v ∧ v.hasTy s.validator.ty = true ∧
+      validates env s.validator v = true :=
+  no_errors_no_later_failure_stated_ranges_partial env c hwf users k s hs ho
+
+/-! ## the same, per key: no table-global hypothesis
+
+`specsWellFormed` is a statement about the whole table; one ill-formed entry (the catchment model's
+`DataSourcePath`) makes it false and the theorems above silent about every other key of that table.
+The statements below need only distinct keys. -/
+
+/-- `PerKey`: every stored entry satisfies its specification's validator **or is the untouched default
+of a non-optional specification**; every non-optional specification has an entry. -/
+def PerKey (env : Env) (p : Params) : Prop :=
+  Inv (fun s v => validates env s.validator v = true ∨ (s.optional = false ∧ v = s.default)) p
+
+/-- **`perkey_invariant`**: for ANY table with distinct keys (well formed or not), after any sequence
+of user maps every stored entry is accepted by its validator or is still its specification's default. -/
+theorem perkey_invariant (env : Env) (c : Component) (hn : nodupKeys c.specs.keys = true)
+    (users : List (List (String × Value))) : PerKey env (afterSequence env c users) :=
+  foldl_setParameters_inv env (fun _ _ hv => Or.inl hv) c users _
+    (createDefaults_inv hn (fun _ _ ho => Or.inr ⟨ho, rfl⟩))
+
+/-- **`perkey_range`**: a key whose OWN specification is well formed reads back inside the range that
+specification states, whatever the other specifications of the table are. -/
+theorem perkey_range (env : Env) (c : Component) (hn : nodupKeys c.specs.keys = true)
+    (users : List (List (String × Value))) (k : String) (s : Spec) (v : Value)
+    (hs : c.specs.find k = some s) (hwf : specWellFormed env s = true)
+    (hv : (afterSequence env c users).get k = some v) :
+    validates env s.validator v = true := by
+  obtain ⟨s', hs', h⟩ := (perkey_invariant env c hn users).1 k v hv
+  rw [afterSequence_specs, hs] at hs'
+  cases hs'
+  rcases h with h | ⟨ho, hd⟩
+  · exact h
+  · subst hd
+    unfold specWellFormed at hwf
+    simp [ho] at hwf
+    exact hwf
+
+/-- per-key form of `no_errors_no_later_failure_stated_ranges_partial` (same FULL CLAUSE, same missing
+part): a non-optional key whose own specification is well formed is present, has its declared type
+and lies in its stated range after any history.  This is the statement that applies to the 16
+catchment keys other than `DataSourcePath`. -/
+theorem perkey_stated_ranges_partial (env : Env) (c : Component) (hn : nodupKeys c.specs.keys = true)
+    (users : List (List (String × Value)))
+    (k : String) (s : Spec) (hs : c.specs.find k = some s) (hwf : specWellFormed env s = true)
+    (ho : s.optional = false) :
+    ∃ v, (afterSequence env c users).get k = some v ∧ v.hasTy s.validator.ty = true ∧
+      validates env s.validator v = true := by
+  obtain ⟨v, hv⟩ := (perkey_invariant env c hn users).2 k s (by rw [afterSequence_specs]; exact hs) ho
+  have := perkey_range env c hn users k s v hs hwf hv
+  exact ⟨v, hv, validates_hasTy env _ _ this, this⟩
+
+/-- the table-global theorem is the per-key one applied to every key -/
+theorem specsWellFormed_iff_perkey (env : Env) (specs : Specs) :
+    specsWellFormed env specs = true ↔
+      nodupKeys specs.keys = true ∧ ∀ s, s ∈ specs → specWellFormed env s = true := by
+  simp [specsWellFormed, List.all_eq_true]
+
+/-! ## whole histories: what a key holds, which errors are there -/
+
+/-- **`afterSequence_get`**: after any history of user maps (each a Go map: distinct keys) a key holds
+the value of the LATEST map that offered a value its specification accepts; if no map did, the default
+of its non-optional specification; otherwise nothing.  Both assignment modes. -/
+theorem afterSequence_get (env : Env) (c : Component) (hn : nodupKeys c.specs.keys = true)
+    (users : List (List (String × Value))) (hu : ∀ u ∈ users, nodupKeys (u.map (·.1)) = true)
+    (k : String) :
+    (afterSequence env c users).get k =
+      (users.reverse.findSome? (validOffer env c.specs k)).or (defaultEntry c.specs k) := by
+  unfold afterSequence
+  rw [foldl_setParameters_get env c users _ rfl hn hu k, createDefaults_get hn]
+
+/-- **`setParameters_errors_prefix`**: one `SetParameters` only appends to the error list … -/
+theorem setParameters_errors_prefix (env : Env) (c : Component) (p : Params) (u : List (String × Value)) :
+    ∃ extra, (setParameters env c p u).errors = p.errors ++ extra :=
+  setParameters_errors_prefix' env c p u
+
+/-- … so over a history errors only ever grow: what was reported after `users` is a prefix of what is
+reported after `users ++ more` (nothing clears `validationErrors`). -/
+theorem afterSequence_errors_prefix (env : Env) (c : Component) (users more : List (List (String × Value))) :
+    ∃ extra, (afterSequence env c (users ++ more)).errors = (afterSequence env c users).errors ++ extra := by
+  unfold afterSequence
+  rw [List.foldl_append]
+  exact foldl_setParameters_errors_prefix env c more _
+
+/-- **`afterSequence_reports_unsupported`**: for an `AssignAllUserValues` component (the three models),
+every unsupported key of every map of the history is in the final error list. -/
+theorem afterSequence_reports_unsupported (env : Env) (c : Component) (hm : c.mode = .all)
+    (users : List (List (String × Value))) (u : List (String × Value)) (hu : u ∈ users)
+    (k : String) (v : Value) (hmem : (k, v) ∈ u) (hk : k ∉ c.specs.keys) :
+    Err.unsupported k ∈ (afterSequence env c users).errors :=
+  foldl_setParameters_reports_unsupported env c hm users _ rfl u hu k v hmem hk
+
+/-! ## fan-out: annealer → explorer → coolant
+
+One user map is handed down the chain (`fanOut`); each component keeps its own table, map and error
+list; `ParameterErrors()` merges the error lists (`mergedErrors`, `reportsErrors`).  The property names
+the `SetParameters()` result as an observation point: it has to agree with `reportsErrors` of the whole
+chain.  On the code as found it did not (own errors only; `nil` for two coolants) — finding
+"SetParameters omits nested errors", checked directly by the `params` suite on every `set`. -/
+
+/-- **`fanOut_sequence`**: over any history, every component of a chain evolves exactly as it would
+alone under the same user maps — so every single-component theorem of this file (`perkey_invariant`,
+`perkey_range`, `afterSequence_get`, `getter_total`, …) holds for each component of a composite. -/
+theorem fanOut_sequence (users : List (List (String × Value))) (parts : List Part) :
+    users.foldl fanOut parts =
+      parts.map fun pt => { pt with p := users.foldl (setParameters pt.env pt.comp) pt.p } :=
+  foldl_fanOut users parts
+
+/-- **`fanOut_reports_invalid`**: a value offered for a key that ANY component of the chain specifies
+and whose validator rejects it makes the composite report errors (nested components included: an
+invalid `CoolingFactor` handed to an annealer is reported). -/
+theorem fanOut_reports_invalid (parts : List Part) (user : List (String × Value)) (pt : Part)
+    (hpt : pt ∈ parts) (k : String) (v : Value) (hoffer : getKey user k = some v)
+    (hv : verdict pt.env pt.p.specs k v = .invalid) :
+    reportsErrors (fanOut parts user) = true := by
+  rw [reportsErrors_iff]
+  refine ⟨pt.set user, List.mem_map.mpr ⟨pt, hpt, rfl⟩, ?_⟩
+  exact List.ne_nil_of_mem (setParameters_reports_invalid pt.env pt.comp pt.p user k v hoffer hv)
+
+/-- reported errors are never lost by a later `SetParameters` on the chain -/
+theorem fanOut_errors_persist (parts : List Part) (user : List (String × Value))
+    (h : reportsErrors parts = true) : reportsErrors (fanOut parts user) = true := by
+  rw [reportsErrors_iff] at h ⊢
+  obtain ⟨pt, hpt, hne⟩ := h
+  refine ⟨pt.set user, List.mem_map.mpr ⟨pt, hpt, rfl⟩, ?_⟩
+  obtain ⟨extra, he⟩ := setParameters_errors_prefix pt.env pt.comp pt.p user
+  show (setParameters pt.env pt.comp pt.p user).errors ≠ []
+  rw [he]
+  intro h0
+  exact hne (List.append_eq_nil_iff.mp h0).1
+
+/-- the composite reports no errors exactly when no component of the chain holds one — in particular
+not when only the head's own list is empty -/
+theorem fanOut_silent_iff (parts : List Part) (user : List (String × Value)) :
+    reportsErrors (fanOut parts user) = false ↔ ∀ pt ∈ parts, (pt.set user).p.errors = [] := by
+  rw [← Bool.not_eq_true, reportsErrors_iff]
+  constructor
+  · intro h pt hpt
+    apply Classical.byContradiction
+    intro hne
+    exact h ⟨pt.set user, List.mem_map.mpr ⟨pt, hpt, rfl⟩, hne⟩
+  · rintro h ⟨pt', hpt', hne⟩
+    obtain ⟨pt, hpt, rfl⟩ := List.mem_map.mp hpt'
+    exact hne (h pt hpt)
 
 /-- "no errors" is informative: under `AssignAllUserValues`, an error-free call means every user
 entry is now in force (nothing was dropped silently). -/
@@ -382,21 +561,46 @@ def exCoolant : Component :=
                { key := "CoolingFactor", validator := .decimalBetweenZeroAndOne, default := .float F64.one, optional := false } ],
     mode := .enforced, post := .none }
 
-/-- a table with an optional key and the catchment's ill-formed default -/
+/-- a table shaped like the catchment model's (mode `.all`, an optional key, a post check, an unbounded
+`IsDecimal` key) with the catchment's ill-formed default: `DataSourcePath` defaults to `""`, which its
+own validator `IsReadableFile` rejects -/
 def exPathSpec : Spec := { key := "DataSourcePath", validator := .readableFile, default := .str "", optional := false }
 
+/-- `YearsOfErosion` as shipped since /repo 40146da: `validateIsYearsOfErosion` = inclusive bounds 1..MaxInt64 -/
+def exYearsSpec : Spec := { key := "YearsOfErosion", validator := .integerBounds 1 maxInt64, default := .int 100, optional := false }
+
+/-- `WaterDensity` as shipped: `IsDecimal` (any float64), default 1.0 -/
+def exDensitySpec : Spec := { key := "WaterDensity", validator := .decimal, default := .float F64.one, optional := false }
+
+def exLimitSpec : Spec := { key := "MaximumImplementationCost", validator := .nonNegativeDecimal, default := .null, optional := true }
+
 def exModel : Component :=
-  { specs := [ exPathSpec,
-               { key := "YearsOfErosion", validator := .nonNegativeInteger, default := .int 100, optional := false },
-               { key := "MaximumImplementationCost", validator := .nonNegativeDecimal, default := .null, optional := true } ],
+  { specs := [ exPathSpec, exYearsSpec, exDensitySpec, exLimitSpec ],
     mode := .all, post := .atMostOneOf ["MaximumImplementationCost"] }
 
--- the hypotheses of the theorems are satisfiable …
+/-- the same table with the defect repaired (a readable default): mode `.all`, an optional key and a
+post check, and well formed as a whole -/
+def exModelRepaired : Component :=
+  { exModel with specs := [ { exPathSpec with default := .str "data.csv" }, exYearsSpec, exDensitySpec, exLimitSpec ] }
+
+-- the hypotheses of the per-table theorems are satisfiable (an `enforced` component and an `all`
+-- component with an optional key and a post check) …
 example : specsWellFormed exEnv exCoolant.specs = true := by decide
+example : specsWellFormed exEnv exModelRepaired.specs = true := by decide
 -- … and not trivially so: the catchment-like table fails them because of the empty default path,
 example : specsWellFormed exEnv exModel.specs = false := by decide
 -- while it is still type-well-formed ("" is a string)
 example : specsTypeWellFormed exModel.specs = true := by decide
+-- the per-key theorems apply to that ill-formed table: its keys are distinct and three of its four
+-- specifications are well formed on their own; `DataSourcePath` is the one that is not
+example : nodupKeys exModel.specs.keys = true := by decide
+example : specWellFormed exEnv exYearsSpec = true ∧ specWellFormed exEnv exDensitySpec = true ∧
+    specWellFormed exEnv exLimitSpec = true ∧ specWellFormed exEnv exPathSpec = false := by decide
+-- `perkey_range` instantiated on the ill-formed table (hypotheses discharged by `decide`/`rfl`)
+example (users : List (List (String × Value))) (v : Value)
+    (hv : (afterSequence exEnv exModel users).get "YearsOfErosion" = some v) :
+    validates exEnv (.integerBounds 1 maxInt64) v = true :=
+  perkey_range exEnv exModel (by decide) users "YearsOfErosion" exYearsSpec v rfl (by decide) hv
 
 -- 0.5 = 0x3fe0000000000000 is accepted for CoolingFactor, 2.0 and an int64 1 are not
 example : validates exEnv .decimalBetweenZeroAndOne (.float 0x3fe0000000000000) = true := by decide
@@ -410,9 +614,13 @@ example : validates exEnv .decimalBetweenZeroAndOne (.float 0x8000000000000001) 
 -- +Inf is not a non-negative decimal (it exceeds MaxFloat64), NaN is (quirk)
 example : validates exEnv .nonNegativeDecimal (.float 0x7ff0000000000000) = false := by decide
 example : validates exEnv .nonNegativeDecimal (.float 0x7ff8000000000001) = true := by decide
--- YearsOfErosion = 0 is accepted by the validator the catchment model declares (finding D15)
+-- `IsNonNegativeInteger` accepts 0 (this is why YearsOfErosion = 0 was accepted and divided by zero:
+-- finding D15a, repaired by /repo 40146da); the validator the catchment model declares since then does not
 example : validates exEnv .nonNegativeInteger (.int 0) = true := by decide
 example : validates exEnv .nonNegativeInteger (.int (-1)) = false := by decide
+example : validates exEnv exYearsSpec.validator (.int 0) = false := by decide
+example : validates exEnv exYearsSpec.validator (.int 1) = true := by decide
+example : validates exEnv exYearsSpec.validator (.int maxInt64) = true := by decide
 example : validates exEnv .integer (.float 0x4000000000000000) = false := by decide
 
 -- a valid value replaces the default, an invalid one leaves it and adds one error,
@@ -423,12 +631,36 @@ example :
     p.getFloat64 "CoolingFactor" = some 0x3fe0000000000000 ∧
     p.getFloat64 "StartingTemperature" = some F64.zero ∧
     p.errors = [.invalid "StartingTemperature"] ∧ p.hasEntry "Bogus" = false := by decide
--- … and reported in `all` mode; errors accumulate over a sequence of maps
+-- … and reported in `all` mode; errors accumulate over a sequence of maps; YearsOfErosion = 0 is
+-- rejected (the default 100 stays), a later valid 7 replaces it
 example :
     let p := afterSequence exEnv exModel
-      [[("Bogus", .bool true)], [("YearsOfErosion", .int 0), ("DataSourcePath", .str "data.csv")]]
-    p.errors = [.unsupported "Bogus"] ∧ p.getInt64 "YearsOfErosion" = some 0 ∧
+      [[("Bogus", .bool true)], [("YearsOfErosion", .int 0), ("DataSourcePath", .str "data.csv")], [("YearsOfErosion", .int 7)],
+       [("YearsOfErosion", .float F64.one)]]
+    p.errors = [.unsupported "Bogus", .invalid "YearsOfErosion", .invalid "YearsOfErosion"] ∧ p.getInt64 "YearsOfErosion" = some 7 ∧
     p.getString "DataSourcePath" = some "data.csv" ∧ p.hasEntry "MaximumImplementationCost" = false := by decide
+-- `afterSequence_get` on that history: the latest ACCEPTED offer (7, not the later float), the default
+-- where nothing valid was offered, nothing for an optional key never offered
+def exHistory : List (List (String × Value)) :=
+  [[("Bogus", .bool true)], [("YearsOfErosion", .int 0), ("DataSourcePath", .str "data.csv")], [("YearsOfErosion", .int 7)],
+   [("YearsOfErosion", .float F64.one)]]
+example : ∀ u ∈ exHistory, nodupKeys (u.map (·.1)) = true := by decide
+example : (exHistory.reverse.findSome? (validOffer exEnv exModel.specs "YearsOfErosion")).or
+    (defaultEntry exModel.specs "YearsOfErosion") = some (.int 7) := rfl
+example : (exHistory.reverse.findSome? (validOffer exEnv exModel.specs "WaterDensity")).or
+    (defaultEntry exModel.specs "WaterDensity") = some (.float F64.one) := rfl
+example : (exHistory.reverse.findSome? (validOffer exEnv exModel.specs "MaximumImplementationCost")).or
+    (defaultEntry exModel.specs "MaximumImplementationCost") = none := rfl
+example : (afterSequence exEnv exModel exHistory).get "YearsOfErosion" = some (.int 7) :=
+  (afterSequence_get exEnv exModel (by decide) exHistory (by decide) "YearsOfErosion").trans rfl
+-- `afterSequence_reports_unsupported`: hypotheses satisfiable (mode `.all`, an unknown key in the first map)
+example : exModel.mode = .all ∧ "Bogus" ∉ exModel.specs.keys := by decide
+-- the post check of the catchment-like table fires (a `message` error) and leaves the map alone
+example :
+    let spec2 : Spec := { exLimitSpec with key := "MaximumOpportunityCost" }
+    let c : Component := { exModel with specs := exModel.specs ++ [spec2], post := .atMostOneOf ["MaximumImplementationCost", "MaximumOpportunityCost"] }
+    let p := afterSequence exEnv c [[("MaximumImplementationCost", .float F64.one)], [("MaximumOpportunityCost", .float F64.one)]]
+    p.errors = [.message "only-one-limit"] ∧ p.hasEntry "MaximumImplementationCost" = true ∧ p.hasEntry "MaximumOpportunityCost" = true := by decide
 -- a getter of the wrong type is the Go panic
 example : (createDefaults exCoolant.specs).getInt64 "CoolingFactor" = none := by decide
 -- without well-formedness the invariant really fails: the empty default path is stored although
@@ -445,6 +677,87 @@ example : ¬ WT exEnv (createDefaults exModel.specs) := by
   subst this
   revert hsat
   unfold Sat
+  decide
+
+-- fan-out: an annealer-like head (one integer key) over the Kirkpatrick coolant's table; an invalid
+-- CoolingFactor leaves the head's OWN error list empty (what `SetParameters` returned on the code as
+-- found) while the chain reports an error (what `ParameterErrors()` says, and `Build()` must see)
+def exAnnealer : Component :=
+  { specs := [ { key := "MaximumIterations", validator := .nonNegativeInteger, default := .int 0, optional := false } ],
+    mode := .enforced, post := .none }
+
+def exChain : List Part :=
+  [ { env := exEnv, comp := exAnnealer, p := createDefaults exAnnealer.specs },
+    { env := exEnv, comp := exCoolant, p := createDefaults exCoolant.specs } ]
+
+example :
+    let after := fanOut exChain [("CoolingFactor", .float 0x4014000000000000), ("MaximumIterations", .int 10)]
+    (after.map (·.p.errors)) = [[], [.invalid "CoolingFactor"]] ∧ reportsErrors after = true ∧
+    (after.map (·.p.getInt64 "MaximumIterations")) = [some 10, none] ∧ reportsErrors exChain = false := by decide
+-- hypotheses of `fanOut_reports_invalid` on that chain
+example : verdict exEnv (createDefaults exCoolant.specs).specs "CoolingFactor" (.float 0x4014000000000000) = .invalid := by decide
+
+/-! ### the full last clause is false: refuting examples
+
+`FullClause env c needs`: "whenever component `c` reports no parameter errors after a history, every
+value it holds is one its consumer can work with" (`needs k v`: what the code reading key `k` needs
+of the value).  The theorems above prove it for `needs := the key's own validator` on well-formed
+specifications.  It fails as soon as the consumer needs more than the specification states (D15, D18)
+and for the ill-formed `DataSourcePath` specification even with `needs := the validator` (D23). -/
+
+def FullClause (env : Env) (c : Component) (needs : String → Value → Bool) : Prop :=
+  ∀ users, (afterSequence env c users).errors = [] →
+    ∀ k v, (afterSequence env c users).get k = some v → needs k v = true
+
+/-- what the consumer needs = what the key's own specification states -/
+def statedRange (env : Env) (c : Component) (k : String) (v : Value) : Bool :=
+  match c.specs.find k with
+  | some s => validates env s.validator v
+  | none => false
+
+-- provable instance: a well-formed table, consumer content with the stated ranges
+example : FullClause exEnv exModelRepaired (statedRange exEnv exModelRepaired) := by
+  intro users _ k v hv
+  obtain ⟨s, hs, hsat⟩ := (well_typed_invariant exEnv exModelRepaired (by decide) users).1 k v hv
+  rw [afterSequence_specs] at hs
+  simp only [statedRange, hs]
+  exact hsat
+
+-- D23: the shipped (ill-formed) table, no user value at all: no error is reported, yet the stored
+-- `DataSourcePath` is not a readable file — the clause fails even for the stated range
+example : ¬ FullClause exEnv exModel (statedRange exEnv exModel) := by
+  intro h
+  have := h [] (by decide) "DataSourcePath" (.str "") rfl
+  revert this
+  decide
+
+/-- D15: the catchment model multiplies `WaterDensity * LocalAcceleration * …` and rounds the result,
+which panics on ±Inf; so it needs (at least) magnitudes below 1e150 = 0x5f138d352e5096af.  As a
+predicate on bit patterns: -/
+def needsModerateMagnitude (k : String) (v : Value) : Bool :=
+  match k, v with
+  | "WaterDensity", .float f => !F64.lt 0x5f138d352e5096af f && !F64.lt f 0xdf138d352e5096af
+  | _, _ => true
+
+-- the reviewer's witness value 1e160 = 0x6126c2d4256ffcc3 is accepted without any error (`IsDecimal`
+-- states no range at all), and is not a magnitude the consumer can work with
+example : ¬ FullClause exEnv exModelRepaired needsModerateMagnitude := by
+  intro h
+  have := h [[("WaterDensity", .float 0x6126c2d4256ffcc3)]] (by decide) "WaterDensity" (.float 0x6126c2d4256ffcc3) rfl
+  revert this
+  decide
+
+/-- D18: an accepted `Maximum…` limit must be attainable on the data set (here: at least 5.0 =
+0x4014000000000000, standing for the cheapest attainable cost); `IsNonNegativeDecimal` states only `≥ 0` -/
+def needsAttainableLimit (k : String) (v : Value) : Bool :=
+  match k, v with
+  | "MaximumImplementationCost", .float f => !F64.lt f 0x4014000000000000
+  | _, _ => true
+
+example : ¬ FullClause exEnv exModelRepaired needsAttainableLimit := by
+  intro h
+  have := h [[("MaximumImplementationCost", .float F64.zero)]] (by decide) "MaximumImplementationCost" (.float F64.zero) rfl
+  revert this
   decide
 
 end Examples
